@@ -372,10 +372,6 @@ func predAsm(c asmCase, o *evid.Obs) error {
 		o.Discard("invalid-regex")
 		return nil
 	}
-	if len(c.Ms) > 8 && !o.Witness {
-		o.Known(knownBitmask)
-		return nil
-	}
 	h := c.Q.hints()
 	restore := readersvc.Quiet()
 	got, be, err := runSelect(&c.DB, c.Ms, h)
